@@ -63,7 +63,7 @@ theorem endOfAuthorityB_specA (c : Ctx) (W : c.Wf) (p : Nat) (sp : Bool) (h1 : c
   have hl := W.hl
   unfold endOfAuthorityB
   upsimp
-  refine R.sat_mono (findIf_spec c.a c.first c.last _ hl (c.last - p) p h1 (by omega)) ?_
+  refine R.sat_mono (findIf_specV c.a c.first c.last _ hl (c.last - p) p h1 (by omega)) ?_
   intro q ⟨q1, q2, q3, q4⟩
   have hq : q = c.last ∨ (!(if sp = true then isSpecialAuthorityEnd else isAuthorityEnd) c.a[q]!) = false := by
     by_cases hql : q = c.last
